@@ -62,3 +62,17 @@ Example C09_example :
                         cf_std (fun _ _ => false) [] (msg0 <| m_data := str "MUNGE:AAAA:"%string |> <| m_data_len := 11 |>) 7 8 1000 in
   hard_code (m_err r) = true /\ is_reset r.
 Proof. vm_compute. split; [reflexivity|repeat split; reflexivity]. Qed.
+
+(* ---- translator tie: the reset and the set of error codes exempt from it are read off the current text of
+        m_msg_reset() and of the guard in dec_process_msg() on every run; the stage order likewise ------------- *)
+From MV Require Import CredSource.
+From MV.gen Require Import GenCredSrc.
+Theorem C09_reset_is_the_source : forall m, src_msg_reset m = msg_reset m.
+Proof. exact msg_reset_is_source. Qed.
+Print Assumptions C09_reset_is_the_source.
+Theorem C09_exempt_codes_are_the_source : forall e, src_soft_err e = soft_err e.
+Proof. exact soft_err_is_source. Qed.
+Print Assumptions C09_exempt_codes_are_the_source.
+Theorem C09_stage_order_is_the_source : src_dec_stages = model_dec_stages /\ src_enc_stages = model_enc_stages.
+Proof. exact stages_are_source. Qed.
+Print Assumptions C09_stage_order_is_the_source.
